@@ -717,7 +717,10 @@ class BrownianInterval(brownian_base.BaseBrownian, _Interval):
             start = interval._start
             end = interval._end
             if end - start > piece_length:
-                midway = (end + start) / 2
+                midway = self._round((end + start) / 2)
+                if midway <= start or midway >= end:
+                    # The interval cannot be split any further at this tolerance.
+                    continue
                 interval._loc(start, midway)
                 stack.append(interval._right_child)
                 stack.append(interval._left_child)
